@@ -59,7 +59,7 @@ func c19(c *Ctx) {
 		for _, b := range f.Blocks {
 			for _, in := range b.Instrs {
 				if ret, ok := in.(*ssa.Return); ok && len(ret.Results) > 0 {
-					out = append(out, ret.Results[0])
+					out = append(out, an.RetVal(ret, 0))
 				}
 			}
 		}
